@@ -53,13 +53,24 @@ type kvSubj[K comparable] struct {
 	vcmp  func(a, b string) int
 	kcmp  func(a, b K) int
 	loadD []kvEnt[K] // distinct pairs of the last reference decode, member order
+	kmemo map[K]string
 }
 
 func (s *kvSubj[K]) kclass(k K) string {
-	if kvHasCmp(s.cfg.Kind) {
-		return s.d.Class(k)
+	if c, ok := s.kmemo[k]; ok {
+		return c
 	}
-	return s.d.Str(k)
+	var c string
+	if kvHasCmp(s.cfg.Kind) {
+		c = s.d.Class(k)
+	} else {
+		c = s.d.Str(k)
+	}
+	if s.kmemo == nil {
+		s.kmemo = map[K]string{}
+	}
+	s.kmemo[k] = c
+	return c
 }
 
 func (s *kvSubj[K]) vclass(v string) string {
@@ -448,6 +459,9 @@ func (s *kvSubj[K]) FinalCheck(o *Oracle) {
 }
 
 func (s *kvSubj[K]) check(o *Oracle) {
+	if o.Sparse && !o.On("C07") {
+		return
+	}
 	if o.On("C07") {
 		// the structure walk is O(n): every step on small trees, sampled on large ones
 		if n := s.m.Size(); n <= 64 || o.cur.ID%(n/32) == 0 {
@@ -482,10 +496,10 @@ func (s *kvSubj[K]) check(o *Oracle) {
 				o.Fail(tag, "get", "after %s: Get(%s)=(%q,%v), want (%q,%v)", o.cur, s.d.Str(k), v, ok, wv, wok)
 			}
 		}
-		for _, k := range s.d.Tab {
+		for _, k := range probeTab(s.d.Tab, s.cfg, o.cur.ID) {
 			probe(k)
 		}
-		for _, k := range s.d.Probes {
+		for _, k := range probeTab(s.d.Probes, s.cfg, o.cur.ID) {
 			probe(k)
 		}
 		// Keys()/Values()
@@ -516,7 +530,7 @@ func (s *kvSubj[K]) check(o *Oracle) {
 	}
 	if o.On("C10") && bidi {
 		bm := s.m.(maps.BidiMap[K, string])
-		for _, k := range s.d.Tab {
+		for _, k := range probeTab(s.d.Tab, s.cfg, o.cur.ID) {
 			if v, ok := bm.Get(k); ok {
 				k2, ok2 := bm.GetKey(v)
 				if !ok2 || s.kclass(k2) != s.kclass(k) {
@@ -645,10 +659,10 @@ func (s *kvSubj[K]) checkC02(o *Oracle, keys []K, vals []string, ms []kvEnt[K]) 
 		k, v, ok = nav.ceiling(p)
 		chk("Ceiling("+s.d.Str(p)+")", k, v, ok, ce)
 	}
-	for _, p := range s.d.Tab {
+	for _, p := range probeTab(s.d.Tab, s.cfg, o.cur.ID) {
 		probe(p)
 	}
-	for _, p := range s.d.Probes {
+	for _, p := range probeTab(s.d.Probes, s.cfg, o.cur.ID) {
 		probe(p)
 	}
 }
@@ -870,4 +884,12 @@ func (s *kvSubj[K]) ModelObs() string {
 		}
 	}
 	return sb.String()
+}
+
+// CheckNow runs the state comparison regardless of the sparse setting.
+func (s *kvSubj[K]) CheckNow(o *Oracle) {
+	sp := o.Sparse
+	o.Sparse = false
+	s.check(o)
+	o.Sparse = sp
 }
